@@ -27,6 +27,7 @@ import glom
 from glom import GlomError
 from glom import cli
 
+from .. import fuzzrun
 from ..runner import Sub, Mismatch
 from .. import boot
 
@@ -488,4 +489,6 @@ SUBS = [
         floors={'outcome-ok': 0.4, 'outcome-glomerror': 0.03, 'outcome-usage-error': 0.05, 'tformat-toml': 0.03, 'tformat-yaml': 0.1}),
     Sub('hostile', check_hostile, gen=gen_hostile, quick=1200, thorough=4000, floors={'diff-reject': 0.5}),
     Sub('process', check_process, gen=gen_cli, quick=64, thorough=128),
+    fuzzrun.fuzz_sub('fuzz-spec-text', 'c19-spec-text', runs=20000, campaigns=4,
+                     corpus=os.path.join(boot.VERIF, 'fuzz', 'corpus', 'c19-spec-text'), replay_sub='hostile'),
 ]
